@@ -15,7 +15,11 @@ package tcp
 // must not grow with the number of finished connections.
 
 import (
+	"crypto/tls"
+	"os"
+
 	"fmt"
+	"github.com/rqlite/rqlite/v10/testdata/x509"
 	"io"
 	"math/rand"
 	"net"
@@ -37,12 +41,20 @@ type c35SeqMux struct {
 	mu      sync.Mutex
 }
 
-func c35StartSeqMux(headers []byte, timeout time.Duration) (*c35SeqMux, error) {
+// c35SeqTLS, when set (cert, key), makes c35StartSeqMux build a TLS mux.
+type c35SeqTLS struct{ cert, key string }
+
+func c35StartSeqMux(headers []byte, timeout time.Duration, tlsFiles ...c35SeqTLS) (*c35SeqMux, error) {
 	ln, err := c35Listen()
 	if err != nil {
 		return nil, err
 	}
-	mux, err := NewMux(ln, nil)
+	var mux *Mux
+	if len(tlsFiles) > 0 {
+		mux, err = NewTLSMux(ln, nil, tlsFiles[0].cert, tlsFiles[0].key)
+	} else {
+		mux, err = NewMux(ln, nil)
+	}
 	if err != nil {
 		ln.Close()
 		return nil, err
@@ -116,9 +128,38 @@ func c35Connect(addr string, first []byte, hold bool) error {
 	return nil
 }
 
+// c35ConnectTLS is a well-behaved TLS peer: handshake, payload, orderly close.
+func c35ConnectTLS(addr string, payload []byte) error {
+	raw, err := c35Dial(addr)
+	if err != nil {
+		return err
+	}
+	defer raw.Close()
+	c := tls.Client(raw, &tls.Config{InsecureSkipVerify: true})
+	c.SetDeadline(time.Now().Add(30 * time.Second))
+	if _, err := c.Write(payload); err != nil {
+		return nil
+	}
+	c.CloseWrite()
+	io.Copy(io.Discard, c)
+	return nil
+}
+
+// c35TLSJunk are first bytes for a TLS port that can never become a session.
+var c35TLSJunk = [][]byte{
+	{0x16, 0x03, 0x01, 0xff, 0xff}, {0x16, 0x03, 0x01, 0x00, 0x05, 1, 2, 3, 4, 5}, {0x80, 0x2e, 0x01, 0x03, 0x01},
+	{0x15, 0x03, 0x03, 0x00, 0x02, 0x02, 0x28}, {0x17, 0x03, 0x03, 0x40, 0x01}, {2, 0, 0, 0, 0, 0, 0, 0, 0}, []byte("GET / HTTP/1.0\r\n\r\n"), {0x16},
+}
+
 func TestVerif_C35_MuxSeq(t *testing.T) {
 	rec := vstat.New(t, "C35", "mux-seq",
-		"rapid: a real Mux.Serve on 127.0.0.1:0 with listeners for headers 1 and 2 and a 40 ms header timeout; 50-400 sequential connections, each of a generated kind {unregistered first byte (0, 3..255), unregistered byte + garbage, registered byte + payload, registered byte only, no byte then close, no byte held open until the header timeout}; then the listener is closed and Serve/acceptors are awaited; oracle: the mux tracks 0 connections afterwards; non-trivial = the sequence contains at least 10 connections with an unregistered first byte and at least one of every other kind group; distinct by kind sequence")
+		"rapid: a real Mux.Serve (plaintext or TLS via NewTLSMux; on the TLS port the generated kinds become TLS-record-shaped junk / plaintext / real TLS sessions with unregistered or registered header) on 127.0.0.1:0 with listeners for headers 1 and 2 and a 40 ms header timeout; 50-400 sequential connections, each of a generated kind {unregistered first byte (0, 3..255), unregistered byte + garbage, registered byte + payload, registered byte only, no byte then close, no byte held open until the header timeout}; then the listener is closed and Serve/acceptors are awaited; oracle: the mux tracks 0 connections afterwards; non-trivial = the sequence contains at least 10 connections with an unregistered first byte and at least one of every other kind group; distinct by kind sequence")
+	dir, derr := os.MkdirTemp("", "c35seqtls")
+	if derr != nil {
+		t.Skipf("infrastructure: %v", derr)
+	}
+	defer os.RemoveAll(dir)
+	tlsCert, tlsKey := x509.CertExampleDotComFile(dir), x509.KeyExampleDotComFile(dir)
 	rapid.Check(t, func(rt *rapid.T) {
 		n := rapid.IntRange(50, 400).Draw(rt, "connections")
 		weights := rapid.SampledFrom([][]int{{6, 2, 1, 1}, {1, 1, 1, 1}, {9, 0, 1, 0}, {3, 3, 3, 1}}).Draw(rt, "mix") // unregistered, registered, empty, held
@@ -146,13 +187,42 @@ func TestVerif_C35_MuxSeq(t *testing.T) {
 		rec.LabelN("conn:no-byte", count[2])
 		rec.LabelN("conn:held-until-timeout", count[3])
 
-		m, err := c35StartSeqMux([]byte{1, 2}, 40*time.Millisecond)
+		useTLS := rapid.Bool().Draw(rt, "tls-mux")
+		var m *c35SeqMux
+		var err error
+		if useTLS {
+			rec.Label("mux:tls")
+			m, err = c35StartSeqMux([]byte{1, 2}, 40*time.Millisecond, c35SeqTLS{tlsCert, tlsKey})
+		} else {
+			rec.Label("mux:plain")
+			m, err = c35StartSeqMux([]byte{1, 2}, 40*time.Millisecond)
+		}
 		if err != nil {
 			rec.Label("inconclusive:infrastructure")
 			return
 		}
 		addr := m.ln.Addr().String()
 		for i, k := range kinds {
+			if useTLS && k <= 1 {
+				// TLS port: "unregistered" = bytes that never become a TLS session, or a
+				// real session whose first byte has no listener; "registered" = a real
+				// TLS peer with header 1/2
+				var cerr error
+				switch {
+				case k == 0 && i%4 == 0:
+					cerr = c35ConnectTLS(addr, []byte{byte(3 + i%200), 'x'})
+				case k == 0:
+					cerr = c35Connect(addr, c35TLSJunk[i%len(c35TLSJunk)], false)
+				default:
+					cerr = c35ConnectTLS(addr, []byte{byte(1 + i%2), 'p', 'a', 'y'})
+				}
+				if cerr != nil {
+					m.finish()
+					rec.Label("inconclusive:infrastructure")
+					return
+				}
+				continue
+			}
 			var first []byte
 			hold := false
 			switch k {
